@@ -51,6 +51,8 @@ type Contract struct {
 	IsDef      bool // contract-level definition (macro): def name(params) := expr
 	DefBody    ast.Expr
 	Assumes    []*Cut // trusted assumptions anchored at statements
+	Axioms     []*Clause // facts proved elsewhere (Lean), assumed at function entry; Src holds the reference
+	AxiomRefs  []string
 	Timeout    int
 	Solvers    []string
 }
@@ -72,7 +74,7 @@ type LemmaParam struct {
 	Type ast.Expr
 }
 
-var clauseKeywords = []string{"requires", "ensures", "modifies", "loop", "reveal", "inline", "trusted", "pure", "maynil", "mayalias", "mode", "split", "timeout", "solvers", "cut", "joinswitch", "assume"}
+var clauseKeywords = []string{"requires", "ensures", "modifies", "loop", "reveal", "inline", "trusted", "pure", "maynil", "mayalias", "mode", "split", "timeout", "solvers", "cut", "joinswitch", "assume", "axiom"}
 
 // parseContractComments extracts contract blocks from a file's comments.
 func parseContractComments(fset *token.FileSet, f *ast.File, pkgPath string) ([]*Contract, error) {
@@ -311,6 +313,25 @@ func (c *Contract) addClause(kw, text, src string) error {
 		}
 	case "joinswitch":
 		c.JoinSwitch = true
+	case "axiom":
+		// axiom "lean:<file>:<theorem>": E
+		t := strings.TrimSpace(text)
+		if !strings.HasPrefix(t, "\"") {
+			return fmt.Errorf("%s: axiom: want a quoted reference \"lean:file:theorem\"", src)
+		}
+		end := strings.Index(t[1:], "\"")
+		ref := t[1 : 1+end]
+		rest := strings.TrimSpace(t[end+2:])
+		if !strings.HasPrefix(rest, ":") || !strings.HasPrefix(ref, "lean:") {
+			return fmt.Errorf("%s: axiom: want \"lean:file:theorem\": E", src)
+		}
+		text = strings.TrimSpace(rest[1:])
+		cl, err := mk("axiom", len(c.Axioms))
+		if err != nil {
+			return err
+		}
+		c.Axioms = append(c.Axioms, cl)
+		c.AxiomRefs = append(c.AxiomRefs, ref)
 	case "defbody":
 		e, err := parseContractExpr(text)
 		if err != nil {
